@@ -142,6 +142,10 @@ def run_history(I, ctx, c, hist):
     handle = []         # per `add` event: the id it must denote (index into slots)
     problems = []
     get_fn = I.method('get', c.ty)
+    try:
+        get_mut_fn = I.method('get_mut', c.ty)
+    except Exception:
+        get_mut_fn = None
     del_fn = I.method('delete', c.ty)
     iter_fn = I.method('iter', c.ty)
     for step, op in enumerate(hist):
@@ -179,32 +183,34 @@ def run_history(I, ctx, c, hist):
                 continue
             idv = bv(i, idkind)
             alive = i < len(slots) and slots[i][1]
-            res = []
-            I.run(get_fn if kind == 'get' else del_fn, [cref, idv], st.fork(), lambda s, v: res.append((s, v)))
-            if len(res) != 1:
-                problems.append('step %d %s(%d): %d outcomes' % (step, kind, i, len(res)))
-                return problems
-            s2, v = res[0]
-            if alive:
-                if v is PANIC:
-                    problems.append('step %d %s(%d) panics although the item is live' % (step, kind, i))
+            for fn_, kind_ in ([(get_fn, 'get')] + ([(get_mut_fn, 'get_mut')] if get_mut_fn is not None else []) if kind == 'get' else [(del_fn, 'del')]):
+                problems_before = len(problems)
+                res = []
+                I.run(fn_, [cref, idv], st.fork(), lambda s, v: res.append((s, v)))
+                if len(res) != 1:
+                    problems.append('step %d %s(%d): %d outcomes' % (step, kind_, i, len(res)))
                     return problems
-                if kind == 'get':
-                    rec = I.deref(s2, v)
-                    rec = Struct(rec.ty, [I.deref(s2, x) if isinstance(x, Ref) else x for x in rec.f], rec.names)
-                    fp = c.payload_of(rec)
-                    if fp != slots[i][0]:
-                        problems.append('step %d get(%d) returns an item with payload %s, expected %s' % (step, i, fp, slots[i][0]))
-                    rid = rec.get('id')
-                    if conc(rid) != i:
-                        problems.append('step %d get(%d) returns the record of id %d' % (step, i, conc(rid)))
+                s2, v = res[0]
+                if alive:
+                    if v is PANIC:
+                        problems.append('step %d %s(%d) panics although the item is live' % (step, kind_, i))
+                        return problems
+                    if kind_ in ('get', 'get_mut'):
+                        rec = I.deref(s2, v)
+                        rec = Struct(rec.ty, [I.deref(s2, x) if isinstance(x, Ref) else x for x in rec.f], rec.names)
+                        fp = c.payload_of(rec)
+                        if fp != slots[i][0]:
+                            problems.append('step %d %s(%d) returns an item with payload %s, expected %s' % (step, kind_, i, fp, slots[i][0]))
+                        rid = rec.get('id')
+                        if conc(rid) != i:
+                            problems.append('step %d %s(%d) returns the record of id %d' % (step, kind_, i, conc(rid)))
+                    else:
+                        st = s2
+                        slots[i] = (slots[i][0], False, slots[i][2])
                 else:
-                    st = s2
-                    slots[i] = (slots[i][0], False, slots[i][2])
-            else:
-                if v is not PANIC:
-                    problems.append('step %d %s(%d) on a deleted / never issued identifier does not report absence (returned %r)' % (step, kind, i, v if kind == 'del' else 'an item'))
-                    return problems
+                    if v is not PANIC:
+                        problems.append('step %d %s(%d) on a deleted / never issued identifier does not report absence (returned %r)' % (step, kind_, i, v if kind_ == 'del' else 'an item'))
+                        return problems
         elif kind in ('iter', 'iter_mut'):
             res = []
             fn_ = iter_fn
@@ -250,7 +256,7 @@ def run_history(I, ctx, c, hist):
 
 def run_coll(ctx, report, cname, maxlen, shard=0, nshards=1):
     c = [x for x in colls(ctx.interp()) if x.name == cname][0]
-    ob = common.Obligation('O17:' + c.name + ('' if nshards == 1 else '[shard %d/%d]' % (shard + 1, nshards)), '%s: for every history of length <= %d over add/delete/get/iter (ids over all issued identifiers and a never-issued one): fresh ids are never reused, get returns the item the id was created for, deleted or foreign ids are reported absent (panic), iteration yields exactly the live items in creation order%s' % (
+    ob = common.Obligation('O17:' + c.name + ('' if nshards == 1 else '[shard %d/%d]' % (shard + 1, nshards)), '%s: for every history of length <= %d over add/delete/get+get_mut/iter/iter_mut (ids over all issued identifiers and a never-issued one): fresh ids are never reused, get returns the item the id was created for, deleted or foreign ids are reported absent (panic), iteration yields exactly the live items in creation order%s' % (
         c.name, maxlen, '; adding an equal signature returns the existing live id, re-adding after delete gives a fresh one' if c.dedup else ''))
     try:
         n = 0
